@@ -53,7 +53,7 @@ def schedules(pid, tier, seed):
     elif pid == 'C05':
         n = 60 if q else 400
         for i in range(n):
-            bub.append(g.link(nid(), wrap=[250, 254][i % 2] if i % 8 == 7 else 0))
+            bub.append(g.link(nid(), wrap=[254, 257][i % 2] if i % 8 == 7 else 0))
         for i in range(16 if q else 96):
             real.append(g.senders_rt(nid(), reconnect=False))
     elif pid == 'C09':
